@@ -708,12 +708,12 @@ Proof.
       destruct (IH s1 (S (length pre)) _ s' b HI1 Hp1) as [H1 [H2 [H3 H4]]]; [rewrite app_length; cbn; lia|exact E2|].
       split; [auto|split; [rewrite H2; exact Hm1|split]].
       * rewrite H3, <- app_assoc. cbn. f_equal. f_equal. apply map_ext. intros q. unfold resolve_pick.
-        rewrite (mask_sp_resolvable s s1 q Hm1). pose proof (f_equal b_now Hm1) as Hn. cbn in Hn. rewrite Hn. reflexivity.
+        rewrite (mask_sp_resolvable s s1 q Hm1). reflexivity.
       * rewrite H4. cbn. f_equal. clear - Hm1. generalize (S (length pre)). induction r as [|q r IHr]; intros n; cbn; auto.
         rewrite (mask_sp_resolvable s s1 q Hm1), (mask_sp_slot_conn_of s s1 _ Hm1), IHr. reflexivity.
     + destruct (resolve_from s (S (length pre)) r) as [s2 b] eqn:E2. intros E; inv E.
       assert (Hp1 : b_picks s = (pre ++ [p]) ++ r) by (rewrite Hp, <- app_assoc; reflexivity).
-      destruct (IH s (S (length pre)) _ s' b HI Hp1) as [H1 [H2 [H3 H4]]]; [rewrite app_length; cbn; lia|exact E2|].
+      destruct (IH s (S (length pre)) _ s' l HI Hp1) as [H1 [H2 [H3 H4]]]; [rewrite app_length; cbn; lia|exact E2|].
       split; [auto|split; [auto|split]].
       * rewrite H3, <- app_assoc. reflexivity.
       * rewrite H4. reflexivity.
@@ -732,4 +732,200 @@ Proof.
   rewrite (mask_sp_can_proceed s s' _ Hm). unfold resolve_pick in *.
   destruct (resolvable s p) eqn:Er; [discriminate|].
   unfold resolvable, is_blocked in Er. rewrite Hst in Er. exact Er.
+Qed.
+
+(* ================================================================ step / full_step *)
+Lemma UpdateClientConnState_ret s addrs a raw s' o r :
+  UpdateClientConnState s addrs a raw = (s', o, r) -> r = RNone \/ r = RCfgErr.
+Proof.
+  rewrite UpdateClientConnState_eq. destruct (ucc_init s addrs a raw) as [[s2 o2]|]; [|intros E; inv E; auto].
+  destruct (_ =? _)%nat; [destruct (addSubConn s2) as [[s3 ok] o3]|]; intros E; inv E; auto.
+Qed.
+
+Definition cancel_pick (p : pick) : pick :=
+  mkPick (pk_slot p) (pk_started p) (pk_deadline p) true (pk_cmd p) (pk_key p) (pk_hasctx p) (pk_locok p) (pk_status p).
+
+Lemma In_remove_nth {A} (l : list A) k x : In x (firstn k l ++ skipn (S k) l) -> In x l.
+Proof.
+  intros H. apply in_app_iff in H. destruct H as [H|H].
+  - rewrite <- (firstn_skipn k l). apply in_app_iff. auto.
+  - rewrite <- (firstn_skipn (S k) l). apply in_app_iff. auto.
+Qed.
+
+Lemma step_Inv raw s o order s' outs r :
+  Inv s -> step raw s o order = (s', outs, r) -> Inv s' /\ r <> RPanic.
+Proof.
+  intros HI. destruct o as [addrs a| |sc st|pi m hc rk dl cc|j oc rk|dt|j|f|g|k]; cbn [step].
+  - intros E. split; [eapply UpdateClientConnState_Inv; eauto|].
+    apply UpdateClientConnState_ret in E. destruct E; subst; discriminate.
+  - intros E; inv E. split; [auto|discriminate].
+  - destruct (UpdateSubConnState s sc st order) as [s1 o1] eqn:E1. intros E; inv E.
+    split; [|discriminate]. eapply UpdateSubConnState_Inv in E1; eauto. tauto.
+  - destruct (nth_error (b_published s) pi) as [pk|] eqn:Ep; [|intros E; inv E; split; [auto|discriminate]].
+    destruct (_ && _); [intros E; inv E; split; [auto|discriminate]|].
+    eapply Pick_Inv; eauto.
+  - apply Done_Inv, HI.
+  - destruct (0 <=? dt); intros E; inv E; (split; [|discriminate]); [apply Inv_set_now|]; auto.
+  - destruct (nth_error (b_picks s) j) as [p|] eqn:Ej; intros E; inv E; (split; [|discriminate]); auto.
+    apply (Inv_touch_pick s j cancel_pick); auto. eapply nth_error_Some_lt, Ej.
+  - intros E; inv E. split; [apply Inv_set_fail, HI|discriminate].
+  - intros E; inv E. split; [apply Inv_set_gate, HI|discriminate].
+  - destruct (nth_error (b_parked s) k) as [x|] eqn:Ek; [|intros E; inv E; split; [auto|discriminate]].
+    destruct (newSubConn _) as [s2 o2] eqn:En. intros E; inv E. split; [|discriminate].
+    assert (Hc : b_cfg s <> None) by (eapply InvG_cfg_parked; [apply HI|eapply nth_error_nonnil, Ek]).
+    eapply newSubConn_Inv in En; [tauto|exact Hc|].
+    apply Inv_set_parked; auto. intros pi Hpi. apply In_remove_nth in Hpi.
+    destruct HI as (_&_&_&_&_&HS). apply (parked_valid HS), Hpi.
+Qed.
+
+Lemma full_step_eq raw s o order :
+  full_step raw s o order =
+  let '(s1, outs, r) := step raw s o order in
+  let '(s2, ub) := resolve_blocked s1 in (s2, outs, r, ub).
+Proof. reflexivity. Qed.
+
+Lemma full_step_Inv raw s o order s' outs r ub :
+  Inv s -> full_step raw s o order = (s', outs, r, ub) -> Inv s' /\ Quiescent s' /\ r <> RPanic.
+Proof.
+  intros HI. rewrite full_step_eq.
+  destruct (step raw s o order) as [[s1 outs1] r1] eqn:Es.
+  destruct (resolve_blocked s1) as [s2 ub2] eqn:Er. intros E; inv E.
+  destruct (step_Inv _ _ _ _ _ _ _ HI Es) as [HI1 Hr].
+  split; [|split; [|exact Hr]].
+  - eapply resolve_blocked_spec in Er; eauto. tauto.
+  - eapply resolve_blocked_Quiescent; eauto.
+Qed.
+
+(* ================================================================ b_next never decreases *)
+Lemma ucc_init_next s addrs a raw s2 o2 :
+  Inv s -> ucc_init s addrs a raw = Some (s2, o2) -> (b_next s <= b_next s2)%N.
+Proof.
+  intros HI. unfold ucc_init. sb. destruct (b_cfg s); [intros E; inv E; cbn; lia|].
+  destruct a; try discriminate; intros E; inv E.
+  - destruct (initializeConfig (set_addrs s addrs) None) as [s' o'] eqn:E. inv H0.
+    destruct (initializeConfig_Inv _ _ _ _ (Inv_set_addrs _ addrs HI) E) as [_ H2]. apply (gf_next _ _ H2).
+  - destruct (initializeConfig (set_addrs s addrs) raw) as [s' o'] eqn:E. inv H0.
+    destruct (initializeConfig_Inv _ _ _ _ (Inv_set_addrs _ addrs HI) E) as [_ H2]. apply (gf_next _ _ H2).
+Qed.
+
+Lemma UpdateClientConnState_next s addrs a raw s' o r :
+  Inv s -> UpdateClientConnState s addrs a raw = (s', o, r) -> (b_next s <= b_next s')%N.
+Proof.
+  intros HI. rewrite UpdateClientConnState_eq.
+  destruct (ucc_init s addrs a raw) as [[s2 o2]|] eqn:E0; [|intros E; inv E; cbn; lia].
+  pose proof (ucc_init_next _ _ _ _ _ _ HI E0) as H0.
+  destruct (ucc_init_Inv _ _ _ _ _ _ HI E0) as [HI2 [Hc2 _]].
+  destruct (_ =? _)%nat; [|intros E; inv E; auto].
+  destruct (addSubConn s2) as [[s3 ok] o3] eqn:E3. intros E; inv E.
+  eapply addSubConn_Inv in E3; eauto. destruct E3 as [_ HF]. pose proof (gf_next _ _ HF). lia.
+Qed.
+
+Lemma bindSubConn_next s key sc : b_next (bindSubConn s key sc) = b_next s.
+Proof.
+  unfold bindSubConn. destruct (aget (b_screfs s) sc); [|reflexivity].
+  destruct (aget (b_aff s) key); reflexivity.
+Qed.
+
+Lemma fold_bindSubConn_next keys sc : forall s, b_next (fold_left (fun st k => bindSubConn st k sc) keys s) = b_next s.
+Proof. induction keys as [|k r IH]; intros s; cbn; [reflexivity|]. rewrite IH. apply bindSubConn_next. Qed.
+
+Lemma unbindSubConn_next s key : b_next (unbindSubConn s key) = b_next s.
+Proof.
+  unfold unbindSubConn. destruct (aget (b_aff s) key); [|reflexivity].
+  destruct (aget (b_screfs s) n); reflexivity.
+Qed.
+
+Lemma done_bind_next s2 p oc rk : b_next (done_bind s2 p oc rk) = b_next s2.
+Proof.
+  unfold done_bind. destruct oc; auto. destruct (pk_cmd p); auto.
+  - destruct (_ && _); auto. destruct (get_slot s2 (pk_slot p)); auto. apply fold_bindSubConn_next.
+  - apply unbindSubConn_next.
+Qed.
+
+Lemma refresh_next s i s' o : refresh s i = (s', o) -> (b_next s <= b_next s')%N.
+Proof.
+  intros E. destruct (refresh_cases s i) as [[E' _]|[r [Es [Er [[_ E']|[_ E']]]]]];
+    rewrite E' in E; inv E; cbn; lia.
+Qed.
+
+Lemma detectUnresponsive_next s p oc s' o : detectUnresponsive s p oc = (s', o) -> (b_next s <= b_next s')%N.
+Proof.
+  unfold detectUnresponsive.
+  destruct (negb (b_undet s)); [intros E; inv E; lia|].
+  destruct (negb _); [intros E; inv E; cbn; lia|].
+  destruct (get_slot s (pk_slot p)) as [r|]; [|intros E; inv E; lia].
+  destruct (pk_started p <? sl_last r); [intros E; inv E; lia|].
+  destruct (_ && _); [|intros E; inv E; cbn; lia].
+  intros E. apply refresh_next in E. exact E.
+Qed.
+
+Lemma Done_next s j oc rk s' o r : Done s j oc rk = (s', o, r) -> (b_next s <= b_next s')%N.
+Proof.
+  rewrite Done_eq. destruct (nth_error (b_picks s) j) as [p|]; [|intros E; inv E; lia].
+  destruct (pk_status p); try (intros E; inv E; lia).
+  destruct (detectUnresponsive (done_s1 s j p) p oc) as [s2 o2] eqn:Ed. intros E; inv E.
+  rewrite done_bind_next. apply detectUnresponsive_next in Ed. exact Ed.
+Qed.
+
+Lemma newSubConn_next s s' o : b_cfg s <> None -> Inv s -> newSubConn s = (s', o) -> (b_next s <= b_next s')%N.
+Proof. intros Hc HI E. eapply newSubConn_Inv in E; eauto. destruct E as [_ HF]. apply (gf_next _ _ HF). Qed.
+
+Lemma Pick_next s pi pk method hasctx reqkeys deadline cancelled s' o r :
+  Inv s -> nth_error (b_published s) pi = Some pk ->
+  Pick s pi pk method hasctx reqkeys deadline cancelled = (s', o, r) -> (b_next s <= b_next s')%N.
+Proof.
+  intros HI Hpk. rewrite Pick_eq.
+  assert (Hc : b_cfg s <> None).
+  { eapply InvG_cfg_pubs; [apply HI|eapply nth_error_nonnil, Hpk]. }
+  destruct pk as [[|]|[|a l]]; try (intros E; inv E; lia).
+  assert (Hrefs : forall i, In i (a :: l) -> (i < length (b_slots s))%nat).
+  { intros i Hi. destruct HI as (_&_&HP&_). eapply (pub_valid HP); eauto. eapply nth_error_In, Hpk. }
+  destruct (pick_keyres s method hasctx reqkeys) as [key|]; [|intros E; inv E; lia].
+  destruct (cmd_eqb _ BIND && cfg_rr s).
+  - unfold pick_rr. destruct (b_slots s); [intros E; inv E; lia|]. unfold pick_rr_body. cbv zeta.
+    destruct (get_slot _ _); [|intros E; inv E; cbn; lia].
+    destruct (_ || _); intros E; inv E; cbn; lia.
+  - unfold pick_lb. destruct (pick_dec s key (a :: l)) as [s1 dec] eqn:Ed.
+    destruct (pick_dec_Inv _ _ _ _ _ HI Hrefs Ed) as [HI1 [[fb' ->] Hdec]].
+    destruct dec as [i| |].
+    + destruct (get_slot _ i); intros E; inv E; cbn; lia.
+    + destruct (b_gate _); [intros E; inv E; cbn; lia|].
+      destruct (newSubConn (set_fb s fb')) as [s2 o2] eqn:En. intros E; inv E.
+      apply newSubConn_next in En; auto.
+    + intros E; inv E; cbn; lia.
+Qed.
+
+Lemma step_next raw s o order s' outs r :
+  Inv s -> step raw s o order = (s', outs, r) -> (b_next s <= b_next s')%N.
+Proof.
+  intros HI. destruct o as [addrs a| |sc st|pi m hc rk dl cc|j oc rk|dt|j|f|g|k]; cbn [step].
+  - apply UpdateClientConnState_next, HI.
+  - intros E; inv E. lia.
+  - destruct (UpdateSubConnState s sc st order) as [s1 o1] eqn:E1. intros E; inv E.
+    eapply UpdateSubConnState_Inv in E1; eauto. destruct E1 as [_ HF]. rewrite (uf_next _ _ HF). lia.
+  - destruct (nth_error (b_published s) pi) as [pk|] eqn:Ep; [|intros E; inv E; lia].
+    destruct (_ && _); [intros E; inv E; lia|]. eapply Pick_next; eauto.
+  - apply Done_next.
+  - destruct (0 <=? dt); intros E; inv E; cbn; lia.
+  - destruct (nth_error (b_picks s) j); intros E; inv E; cbn; lia.
+  - intros E; inv E. cbn; lia.
+  - intros E; inv E. cbn; lia.
+  - destruct (nth_error (b_parked s) k) as [x|] eqn:Ek; [|intros E; inv E; lia].
+    destruct (newSubConn _) as [s2 o2] eqn:En. intros E; inv E.
+    assert (Hc : b_cfg s <> None) by (eapply InvG_cfg_parked; [apply HI|eapply nth_error_nonnil, Ek]).
+    apply newSubConn_next in En; auto.
+    apply Inv_set_parked; auto. intros pi Hpi. apply In_remove_nth in Hpi.
+    destruct HI as (_&_&_&_&_&HS). apply (parked_valid HS), Hpi.
+Qed.
+
+Lemma full_step_next raw s o order s' outs r ub :
+  Inv s -> full_step raw s o order = (s', outs, r, ub) -> (b_next s <= b_next s')%N.
+Proof.
+  intros HI. rewrite full_step_eq.
+  destruct (step raw s o order) as [[s1 outs1] r1] eqn:Es.
+  destruct (resolve_blocked s1) as [s2 ub2] eqn:Er. intros E; inv E.
+  destruct (step_Inv _ _ _ _ _ _ _ HI Es) as [HI1 _].
+  pose proof (step_next _ _ _ _ _ _ _ HI Es) as H1.
+  destruct (resolve_blocked_spec _ _ _ HI1 Er) as [_ [Hm _]].
+  apply (f_equal b_next) in Hm. cbn in Hm. lia.
 Qed.
